@@ -40,6 +40,13 @@ struct Srv : public HttpServer {
 		if (p == "/echo") { int code = q.query("code") ? (int)q.query("code") : 200; r.setCode(code); r.setHeader("X-Method", q.method()); r.setHeader("X-Len", String(b.length())); if (q.hasHeader("X-Token")) r.setHeader("X-Token", q.header("X-Token")); r.setHeader("X-Special", "v;=, \"q\" :/?#[]@!$&'()*+%"); r.put(b); }
 		else if (p == "/len") { r.put(ByteArray((const byte*)bodyOf((int)q.query("n"), 2).data(), (int)q.query("n"))); }
 		else if (p == "/json") { Var in = q.json(); Var out; out["got"] = in; out["n"] = in.ok() ? in["n"] : Var(); out["s"] = "a\"\\/\n\x01"; r.put(out); }
+		else if (p == "/stream") { // body streamed with chunked transfer encoding: n bytes written in `pieces` write() calls, then the last-chunk marker
+			int n = q.query("n"), pieces = max(1, (int)q.query("p")); std::string body = bodyOf(n, 7);
+			r.setHeader("Transfer-Encoding", "chunked"); r.setHeader("X-Streamed", "yes");
+			int done = 0; for (int i = 0; i < pieces; i++) { int m = i + 1 == pieces ? n - done : n / pieces; if (m > 0) r.write(body.data() + done, m); done += m; }
+			if (n == 0) r.sendHeaders();
+			r.socket() << "0\r\n\r\n";
+		}
 		else if (p == "/f.txt") { r.put(File((g_root + "/f.txt").c_str())); }
 		else { r.setCode(404); r.put("nope"); }
 	}
@@ -101,6 +108,25 @@ static Job echoJob(const char* method, int len, int code, int bound) {
 		acc.join(); lst.close();
 		if (srv.seen.size() != 1) e += fmt("handler invoked %d times; ", (int)srv.seen.size());
 		else { e += cmpSeen(srv.seen[0], m, "/echo", fmt("code=%d&k=a%%20b", code), body); if (srv.seen[0].headers["X-Token"] != "tok 1;=,") e += "request header X-Token lost or changed; "; }
+		return e;
+	};
+	return j;
+}
+// S1b: response streamed by the handler with chunked transfer encoding
+static Job streamJob(int len, int pieces, int bound, bool big = false) {
+	Job j; j.name = fmt("stream.%d.%d.b%d", len, pieces, bound); j.bound = bound; if (big) j.cap = 65536;
+	j.body = [len, pieces]() {
+		std::string e; Srv srv; Socket lst; lst.bind("127.0.0.1", 8000); lst.listen(2);
+		Acceptor acc; acc.srv = &srv; acc.lst = &lst; acc.n = 1; acc.start();
+		{
+			HttpResponse res = Http::get(fmt("http://127.0.0.1:8000/stream?n=%d&p=%d", len, pieces).c_str());
+			const ByteArray& rb = res.body(); std::string got((const char*)rb.data(), rb.length()), want = bodyOf(len, 7);
+			if (res.code() != 200) e += fmt("client saw status %d; ", res.code());
+			if (got != want) { size_t d = 0; while (d < got.size() && d < want.size() && got[d] == want[d]) d++; e += fmt("chunked response of %d bytes written in %d piece(s): client received %d bytes, first difference at byte %d; ", len, pieces, (int)got.size(), (int)d); }
+			if (res.header("X-Streamed") != "yes") e += "header of a streamed response lost; ";
+			vf::add(W_CHUNKED_RESP);
+		}
+		acc.join(); lst.close();
 		return e;
 	};
 	return j;
@@ -270,10 +296,11 @@ int main(int argc, char** argv) {
 	std::vector<Job> jobs;
 	if (big) {
 		int lens[] = { 0, 1, 15999, 16000, 16001, 127999, 128000, 128001, 300 * 1024 };
-		for (size_t i = 0; i < sizeof lens / sizeof *lens; i++) jobs.push_back(bigJob(lens[i], 0));
+		for (size_t i = 0; i < sizeof lens / sizeof *lens; i++) { jobs.push_back(bigJob(lens[i], 0)); jobs.push_back(streamJob(lens[i], 1, 0, true)); if (lens[i] > 1) jobs.push_back(streamJob(lens[i], 2, 0, true)); }
 	} else {
 		const char* methods[] = { "GET", "POST", "PUT" };
 		for (int m = 0; m < 3; m++) for (int len = 0; len <= 20; len++) { if (m == 0 && len > 0) continue; jobs.push_back(echoJob(methods[m], len, len % 3 == 0 ? 200 : len % 3 == 1 ? 201 : 404, (T && len <= 3) ? 2 : 1)); }
+		for (int len = 0; len <= 20; len++) for (int pc = 1; pc <= 3; pc += 2) jobs.push_back(streamJob(len, pc, (T && len % 4 == 0) ? 1 : 0));
 		for (int n = 0; n <= (T ? 12 : 6); n += 3) jobs.push_back(jsonJob(n, 1));
 		jobs.push_back(rangeJob(-1, 0, 1));
 		for (int b = 0; b <= 6; b++) for (int e = 0; e <= 6; e++) jobs.push_back(rangeJob(b, e, (b + e) % 4 == 0 ? 1 : 0));
